@@ -1032,6 +1032,64 @@ pub enum Consumer {
     LogFormat,
 }
 
+/// The reference-free core of C08 for arbitrary source text (used by the libFuzzer target): parsing, type
+/// checking and evaluating never panic, and a script that a consumer would accept evaluates to a value
+/// of its declared type or fails with one of the documented dynamic errors.
+pub fn check_text(src: &str) -> Result<&'static str, String> {
+    let parsed = match catch(|| parse(src)) {
+        Ok(Ok(v)) => v,
+        Ok(Err(_)) => return Ok("syntax-error"),
+        Err(p) => return Err(format!("parse panicked: {} — source {:?}", p.msg, src)),
+    };
+    let default_ctx: ScriptContextRef = Arc::new(create_context(Default::default()));
+    let t = match catch(|| parsed.real_type_of(default_ctx.clone())) {
+        Ok(Ok(t)) => t,
+        Ok(Err(_)) => return Ok("rejected-at-load"),
+        Err(p) => return Err(format!("type check panicked: {} — source {:?}", p.msg, src)),
+    };
+    if matches!(t, Type::NativeObject(_)) {
+        return Ok("rejected-at-load");
+    }
+    let env = EnvSpec { listener: 0, connector: 0, source_v6: false, source_port: 40000, target_kind: 0, target_host: 0, target_port: 443, feature: 0 };
+    let props = make_props(&env);
+    let rctx: ScriptContextRef = Arc::new(create_context(Arc::new(props)));
+    match catch(|| parsed.real_value_of(rctx.clone())) {
+        Err(p) => Err(format!("accepted with type {} but evaluation panicked: {} — source {:?}", t, p.msg, src)),
+        Ok(Ok(v)) => {
+            if type_matches(&t, &v) {
+                Ok("value")
+            } else {
+                Err(format!("accepted with type {} but evaluated to {:?} — source {:?}", t, v, src))
+            }
+        }
+        Ok(Err(err)) => {
+            let msg = format!("{} {:?}", err, err.cause.as_ref().map(|c| c.to_string()));
+            if classify_err(&msg).is_some() {
+                Ok("dynamic-error")
+            } else {
+                Err(format!("accepted with type {} but evaluation failed with a non-dynamic error: {} — source {:?}", t, msg.chars().take(200).collect::<String>(), src))
+            }
+        }
+    }
+}
+
+/// seed corpus for the milu fuzz target: sources rendered from the typed generator
+pub fn emit_corpus(dir: &str, n: usize, seed: u64) -> usize {
+    let _ = std::fs::create_dir_all(dir);
+    let part = vcore::Part::new("C08", "corpus", vcore::Tier::Quick, seed, "");
+    let cases = part.draw("corpus", n, &case_strategy());
+    let mut written = 0;
+    for (i, c) in cases.iter().enumerate() {
+        let mut g = Gen::new(&c.tape);
+        let e = g.gen(&root_ty(c.ty), c.depth as u32);
+        let src = render(&e);
+        if src.len() <= 2048 && std::fs::write(format!("{}/seed-{:04}", dir, i), src.as_bytes()).is_ok() {
+            written += 1;
+        }
+    }
+    written
+}
+
 pub fn check_program(e: &E, env: &EnvSpec, consumer: Consumer, info: &mut CaseInfo) -> Result<(), Failure> {
     let src = render(e);
     let shape = op_shape(e);
